@@ -59,6 +59,7 @@ fn replay_case(prop: &str, sub: &str, case: Value) -> Result<(), String> {
         "C16" => c16::replay(sub, case),
         "C17" => c17::replay(sub, case),
         "C19" => c19::replay(sub, case),
+        "C12" | "C14" if sub == "compile-fail" => cfail::replay(prop, case),
         other => Err(format!("HARNESS: progen has no replay for {other}")),
     }
 }
@@ -81,6 +82,24 @@ fn main() {
         let rep = cfail::run(&ctx, &which);
         println!("{}", serde_json::to_string(&rep.to_json()).unwrap());
         return;
+    }
+    if args[0] == "--cfail-only" {
+        // `progen --cfail-only <C12|C14> <tier>`: used by ./check when the run-time engine does not build
+        // against the current tree (a changed builder signature): the compile-time half still decides
+        let which = args.get(1).cloned().unwrap_or_default();
+        let tier = if args.get(2).map(|s| s == "thorough").unwrap_or(false) { Tier::Thorough } else { Tier::Quick };
+        let ctx = Ctx::new(&which, tier);
+        let mut v = vcore::Verdict::new("exploration", "compile-fail = every builder call chain of one or two segments over {some_call, next_call, each_call, stub} x {returns(Clone / non-Clone / composite values), answers} x {none, once, n_times, at_least_times}, judged by rustc against a type-level model of the builder (both directions)");
+        v.explanation = "Only the compile-time half ran: the run-time engine (harness/rt) does not build against the current tree, which by itself means a builder signature changed.".into();
+        let rep = cfail::run(&ctx, &which);
+        let failed = rep.failure.is_some();
+        v.subs.push(rep);
+        if !failed {
+            let mut r = vcore::SubReport::new("run-time-engine");
+            r.inconclusive = Some("HARNESS: harness/rt does not build against the current tree (see logs/build-rt.log)".into());
+            v.subs.push(r);
+        }
+        std::process::exit(vcore::finish(&ctx, v));
     }
     if args[0] == "--replay" {
         let Some(path) = args.get(1) else { usage() };
